@@ -67,10 +67,11 @@ class Sym(Abstract):
 
 
 class _Lambda:
-    def __init__(self, node: ast.Lambda, env: Dict[str, Any], home: Any = None):
+    def __init__(self, node: ast.Lambda, env: Dict[str, Any], home: Any = None, defaults: Optional[list] = None):
         self.node = node
         self.env = env
         self.home = home  # (module, class) in which the lambda is written: its free names mean what they mean there
+        self.defaults = defaults or []  # default values, evaluated when the lambda was created (`lambda x=x: ...`)
 
     def __call__(self, *args: Any) -> Any:
         return self.call(_CURRENT[-1], list(args))
@@ -78,6 +79,8 @@ class _Lambda:
     def call(self, f: "Folder", args: list) -> Any:
         a = self.node.args
         params = [x.arg for x in a.posonlyargs + a.args]
+        if len(args) < len(params) and len(params) - len(args) <= len(self.defaults):
+            args = list(args) + self.defaults[len(self.defaults) - (len(params) - len(args)) :]
         if len(args) != len(params):
             raise Unfoldable("lambda arity")
         env = dict(self.env)
@@ -90,6 +93,32 @@ class _Lambda:
 
 class _Expanded(ast.Call):
     """a call whose `*args` have been replaced by the evaluated values (shown to hooks)"""
+
+
+_UNSET = object()
+_DIRECT_ARGS: set = set()  # ids of generator expressions written directly as call arguments (consumed by the callee at once)
+
+
+class _LazyGen(Abstract):
+    """a generator expression that is kept: a one-shot iterator whose body runs when it is first pulled"""
+
+    def __init__(self, folder: "Folder", node: ast.GeneratorExp, first: Any):
+        self.folder, self.node, self.first = folder, node, first
+        self._it: Any = None
+
+    def _start(self) -> None:
+        if self._it is None:
+            f = self.folder
+            sub = Folder(f.env, f.repo, f.mod, f.cls, f.hook)  # the enclosing scope *as it is now*
+            sub.depth = _CURRENT[-1].depth if _CURRENT else 0
+            self._it = iter(sub._comprehension(self.node, first=self.first))
+
+    def __iter__(self) -> Any:
+        return self
+
+    def __next__(self) -> Any:
+        self._start()
+        return next(self._it)
 
 
 class _Eager(list):
@@ -660,10 +689,16 @@ class Folder:
                 else:
                     return "<fstring>"
             return "".join(parts)
+        if isinstance(e, ast.GeneratorExp) and id(e) not in _DIRECT_ARGS:
+            # a generator expression that is kept (assigned, collected, returned) rather than handed straight to a call: its
+            # outermost iterable is evaluated now, everything else when it is first consumed - with the bindings of *then*
+            g0 = e.generators[0]
+            return _LazyGen(self, e, self.fold(g0.iter))
         if isinstance(e, (ast.ListComp, ast.SetComp, ast.GeneratorExp, ast.DictComp)):
             return self._comprehension(e)
         if isinstance(e, ast.Lambda):
-            return _Lambda(e, dict(self.env), (self.mod, self.cls))
+            # (free names are looked up when the lambda is *called*, in the scope it was written in: late binding)
+            return _Lambda(e, self.env, (self.mod, self.cls), [self.fold(d_) for d_ in e.args.defaults])
         raise Unfoldable(unparse(e))
 
     def _iter_arg(self, a: ast.expr) -> Any:
@@ -718,14 +753,18 @@ class Folder:
         else:
             raise Unfoldable("target " + unparse(t))
 
-    def _comprehension(self, e: Any) -> Any:
+    def _comprehension(self, e: Any, first: Any = _UNSET) -> Any:
+        """a comprehension runs in ONE scope of its own: the loop variables are rebound in it, and whatever is created inside
+        (a lambda, a kept generator expression) sees the binding of the moment it looks - as in Python"""
         out: list = []
 
-        def rec(i: int, env: Dict[str, Any]) -> None:
+        scope = Folder(self.env, self.repo, self.mod, self.cls, self.hook)  # (a Folder keeps its own copy of the bindings)
+        scope.depth = self.depth
+
+        def rec(i: int) -> None:
             if len(out) > 100000:
                 raise TooLarge("comprehension with more than 100000 elements")
-            f = Folder(env, self.repo, self.mod, self.cls, self.hook)
-            f.depth = self.depth
+            f = scope
             if i == len(e.generators):
                 if isinstance(e, ast.DictComp):
                     out.append((f.fold(e.key), f.fold(e.value)))
@@ -733,7 +772,7 @@ class Folder:
                     out.append(f.fold(e.elt))
                 return
             g = e.generators[i]
-            it = f.fold(g.iter)
+            it = first if (i == 0 and first is not _UNSET) else f.fold(g.iter)
             if isinstance(it, (dict,)):
                 it = list(it)
             proto = isinstance(it, Abstract) and hasattr(it, "loop_begin")
@@ -745,17 +784,14 @@ class Folder:
                 it.loop_begin()
             try:
                 for v in items:
-                    env2 = dict(env)
-                    self._bind_target(g.target, v, env2)
-                    f2 = Folder(env2, self.repo, self.mod, self.cls, self.hook)
-                    f2.depth = self.depth
-                    if all(f2.fold(c) for c in g.ifs):
-                        rec(i + 1, env2)
+                    self._bind_target(g.target, v, scope.env)  # rebound in the one scope of the comprehension
+                    if all(f.fold(c) for c in g.ifs):
+                        rec(i + 1)
             finally:
                 if proto:
                     it.loop_end()
 
-        rec(0, dict(self.env))
+        rec(0)
         if isinstance(e, ast.SetComp):
             return frozenset(out)
         if isinstance(e, ast.DictComp):
@@ -845,6 +881,9 @@ class Folder:
         return self.mod
 
     def _call(self, e: ast.Call) -> Any:
+        for a_ in e.args:
+            if isinstance(a_, ast.GeneratorExp):
+                _DIRECT_ARGS.add(id(a_))
         if isinstance(e.func, ast.Attribute) and not isinstance(e.func.value, (ast.Name, ast.Constant)):
             once = self.__dict__.setdefault("_once", {})
             key = id(e.func.value)
@@ -1263,6 +1302,8 @@ class Folder:
             if (callable(f) and isinstance(f, Abstract)) or isinstance(f, _Partial) or type(f).__name__ == "_BoundMethod":
                 res = [call_value(self, f, [v]) for v in vals]  # a rule-modelled callable / a bound method of an abstract instance
                 return res if name == "map" else [v for v, k in zip(vals, res) if k]
+            if f in (list, tuple, frozenset, sorted) and name == "map":
+                return [f(v) for v in vals]  # each element consumed now (a kept generator expression runs here)
             if f in (str, repr, int, bool, len, abs, float) and name == "map":
                 if any(isinstance(v, Abstract) and type(v).__name__ != "AObj" for v in vals) or (f not in (str, repr) and any(isinstance(v, Abstract) for v in vals)):
                     raise Unfoldable(unparse(e))
@@ -1740,7 +1781,6 @@ class ARange:
 
 
 COVERAGE: Optional[dict] = None  # when a rule asks: (file, line, column) of every subscript evaluated -> count; ("raised", ...) -> class
-_UNSET = object()
 PROCESS_STATE: dict = {}  # id(assignment value node) -> (node, the one object it evaluated to) for mutable module-level values
 
 
